@@ -16,8 +16,9 @@ OBLIGATIONS = [
     'C04.rev_antiautomorphism', 'C04.conj_antiautomorphism', 'C04.gi_automorphism',
     'C04.even_add_odd', 'C04.gi_even', 'C04.gi_odd', 'C04.even_as_coded', 'C04.odd_as_coded',
     'C04.mag2_diagonal', 'C04.normal_spec',
+    'C04.reversion_in_storage_order', 'C04.grade_involution_in_storage_order', 'C04.grade_projection_in_storage_order',
 ]
-PENDING = ['the executable involutions act on storage order through the grade array; their link to the canonical maps is the sign-vector theorems plus correspondence']
+PENDING = []
 RULE = ("layouts: exhaustive small signatures, random up to n=8, custom ids/orders for the involutions; multivectors: integer and dyadic "
         "coefficient vectors; non-trivial = operand has a non-scalar non-zero coefficient; distinct = distinct (layout, operand, clause) text")
 ASSUMPTIONS = C01.ASSUMPTIONS + ["np.sqrt is correctly rounded (compared with math.sqrt)"]
